@@ -1,7 +1,7 @@
 # RDB persistence (C09 round trip, C10 loader totality / allocation / writer faults).
 # Harnesses live in ovl_rdb.rs (child of rdb.rs); ovl_rdb_engine.rs (child of engine.rs) only adds
 # inherent vr_* builders/observers for engine states (no engine operation involved in them).
-group("rdb", family="vec", shrinks={"MAX_LEVEL": 4},
+group("rdb", family="vec", shrinks={"MAX_LEVEL": 4, "SHARDS_PER_DATABASE": 1},
       overlays={"src/storage/rdb.rs": "ovl_rdb.rs", "src/storage/engine.rs": "ovl_rdb_engine.rs"})
 
 RDB_IO = ["RdbWriter<W>/RdbReader<R> instantiated with W = fixed-capacity in-memory buffer, R = &[u8] (the code is generic over Write/Read)"]
